@@ -169,6 +169,23 @@ func newTranslator(p *pkg, gen string) *translator {
 					}
 				case *ast.ValueSpec:
 					if gd.Tok == token.CONST {
+						// `X = iota` followed by bare names: 0, 1, 2, ...
+						for k, s2 := range gd.Specs {
+							vs2 := s2.(*ast.ValueSpec)
+							if k == 0 {
+								if len(vs2.Values) != 1 {
+									break
+								}
+								if id, ok := vs2.Values[0].(*ast.Ident); !ok || id.Name != "iota" {
+									break
+								}
+							} else if len(vs2.Values) != 0 {
+								break
+							}
+							if len(vs2.Names) == 1 {
+								t.consts[vs2.Names[0].Name] = fmt.Sprint(k)
+							}
+						}
 						for i, nm := range sp.Names {
 							if i < len(sp.Values) {
 								if bl, ok := sp.Values[i].(*ast.BasicLit); ok && bl.Kind == token.INT {
@@ -673,7 +690,16 @@ func (e *env) block(stmts []ast.Stmt, fall string, ind string) string {
 				continue
 			}
 			lty := e.lhsType(v.Lhs[0])
-			x, ty := e.rhs(v.Rhs[0])
+			var x string
+			var ty gty
+			if id, ok := v.Rhs[0].(*ast.Ident); ok && lty == tErr && id.Name != "nil" {
+				if _, isVar := e.vars[id.Name]; !isVar {
+					x, ty = fmt.Sprintf("%q", id.Name), tErr // a package-level error value
+				}
+			}
+			if x == "" {
+				x, ty = e.rhs(v.Rhs[0])
+			}
 			switch v.Tok {
 			case token.ASSIGN:
 				sb.WriteString(e.assignTo(v.Lhs[0], wrap2(lty, ty, x), lty, ind))
@@ -1037,6 +1063,10 @@ func (t *translator) translate(sp tspec) (res *tfun, why string) {
 					break
 				}
 			}
+			if strings.HasPrefix(t.p.str(s), sp.until) {
+				cut = i
+				break
+			}
 		}
 		if cut < 0 {
 			return nil, "end of the prefix (" + sp.until + ") not found"
@@ -1255,6 +1285,7 @@ func transAll(v1, v2 *pkg) string {
 		{file: "azure-shared-resource.go", recv: "AzureSharedResource", name: "GiveMe", lean: "v1_sr_GiveMe"},
 		{file: "azure-shared-resource.go", recv: "AzureSharedResource", name: "clearPartitionId", lean: "v1_sr_clearPartitionId"},
 		{file: "azure-shared-resource.go", recv: "AzureSharedResource", name: "getAllocatedAndRandomUnallocatedPartition", lean: "v1_sr_pick", opaque: true},
+		{file: "azure-shared-resource.go", recv: "AzureSharedResource", name: "Provision", lean: "v1_sr_requirements", until: "r.partlock.Lock", view: "_req"},
 		{file: "azure-shared-resource.go", recv: "AzureSharedResource", name: "Provision", lean: "v1_sr_partitionCount", sliceFrom: "count", sliceN: 2, sliceOut: []string{"count", "err"}},
 		{file: "provisioned-resource.go", recv: "ProvisionedResource", name: "MaxCapacity", lean: "v1_pr_MaxCapacity"},
 		{file: "provisioned-resource.go", recv: "ProvisionedResource", name: "Capacity", lean: "v1_pr_Capacity"},
@@ -1276,6 +1307,7 @@ func transAll(v1, v2 *pkg) string {
 		{file: "shared-resource.go", recv: "sharedResource", name: "SetReservedCapacity", lean: "v2_sr_SetReservedCapacity"},
 		{file: "shared-resource.go", recv: "sharedResource", name: "clearPartitionId", lean: "v2_sr_clearPartitionId"},
 		{file: "shared-resource.go", recv: "sharedResource", name: "getAllocatedAndRandomUnallocatedPartition", lean: "v2_sr_pick", opaque: true},
+		{file: "shared-resource.go", recv: "sharedResource", name: "Start", lean: "v2_sr_requirements", until: "r.provision = make", view: "_req"},
 		{file: "shared-resource.go", recv: "sharedResource", name: "provisionBlobs", lean: "v2_sr_partitionCount", sliceFrom: "sharedCapacity", sliceN: 3, sliceOut: []string{"count"}},
 	}, &sb)
 	sb.WriteString("end GoBatcher.Trans\n")
